@@ -136,6 +136,7 @@ type groupResult struct {
 	Queries   int      `json:"queries"`
 	Backends  []string `json:"backends"`
 	Ms        int64    `json:"ms"`
+	MaxMs     int64    `json:"max_query_ms,omitempty"`
 	What      string   `json:"what,omitempty"`
 	Detail    string   `json:"detail,omitempty"`
 	Semantics string   `json:"semantics,omitempty"`
@@ -366,9 +367,9 @@ func runCheck(prop, repo, verif, tier, only string, updateBaseline, verbose, noE
 	}
 
 	finalizeNames(x.obls)
-	timeout := 20 * time.Second
+	timeout := 40 * time.Second
 	if tier == "thorough" {
-		timeout = 90 * time.Second
+		timeout = 150 * time.Second
 	}
 	solveAll(x.obls, outDir, timeout, tier == "thorough", 8)
 
@@ -386,6 +387,9 @@ func runCheck(prop, repo, verif, tier, only string, updateBaseline, verbose, noE
 		g.obls = append(g.obls, o)
 		g.Queries++
 		g.Ms += o.res.ms
+		if o.res.ms > g.MaxMs {
+			g.MaxMs = o.res.ms
+		}
 		found := false
 		for _, b := range g.Backends {
 			if b == o.res.backend {
@@ -439,7 +443,7 @@ func runCheck(prop, repo, verif, tier, only string, updateBaseline, verbose, noE
 	for _, name := range order {
 		g := groups[name]
 		solverMs += g.Ms
-		rec := map[string]interface{}{"name": g.Name, "status": g.Status, "queries": g.Queries, "backends": g.Backends, "ms": g.Ms}
+		rec := map[string]interface{}{"name": g.Name, "status": g.Status, "queries": g.Queries, "backends": g.Backends, "ms": g.Ms, "max_query_ms": g.MaxMs}
 		if g.What != "" {
 			rec["what"] = g.What
 		}
